@@ -5,7 +5,7 @@ import signal
 from . import common
 from . import driver as D
 
-BOUNDS = {"quick": 7, "thorough": 11}
+BOUNDS = {"quick": 12, "thorough": 18}
 API = D.API
 
 VALID, INVALID, EITHER = "valid", "invalid", "either"
